@@ -16,7 +16,7 @@ for p in props:
     c = checks.get(pid)
     if c:
         lc = c['level_claimed']
-        out.append('**Level.** %s%s\n' % (lc if isinstance(lc, str) else json.dumps(lc), ' - ' + c['level_note'] if c.get('level_note') else ''))
+        out.append('**Level.** %s%s\n' % (lc if isinstance(lc, str) else lc.get('text', ''), ' - ' + c['level_note'] if c.get('level_note') else ''))
     conf = PROPS.get(pid, {})
     models = sorted(glob.glob('coq/model/%s_*.v' % pid)); proofs = sorted(glob.glob('coq/proofs/%s_*.v' % pid))
     lines = sum(len(open(f).read().splitlines()) for f in models + proofs)
